@@ -124,3 +124,37 @@ Fixpoint expr_ind' (e : expr) : P e :=
   | EBad => HBad
   end.
 End ExprInd.
+
+Section StmtInd.
+Variable P : stmt -> Prop.
+Hypothesis HReturn : forall res, P (SReturn res).
+Hypothesis HAssign : forall tok lhs nrhs rhs, P (SAssign tok lhs nrhs rhs).
+Hypothesis HIncDec : forall x inc, P (SIncDec x inc).
+Hypothesis HIf : forall init c t e, (forall s, init = Some s -> P s) -> Forall P t -> (forall s, e = Some s -> P s) -> P (SIf init c t e).
+Hypothesis HFor : forall init c post body, (forall s, init = Some s -> P s) -> (forall s, post = Some s -> P s) -> Forall P body ->
+  P (SFor init c post body).
+Hypothesis HBreak : P SBreak.
+Hypothesis HExpr : forall e, P (SExpr e).
+Hypothesis HBlock : forall l, Forall P l -> P (SBlock l).
+Hypothesis HBad : P SBad.
+
+Fixpoint stmt_ind' (s : stmt) : P s :=
+  let fix all (l : list stmt) : Forall P l :=
+      match l with [] => Forall_nil _ | x :: l' => Forall_cons _ (stmt_ind' x) (all l') end in
+  let opt (o : option stmt) : forall x, o = Some x -> P x :=
+      match o return forall x, o = Some x -> P x with
+      | Some s0 => fun x H => match H in _ = y return match y with Some x' => P x' | None => True end with eq_refl => stmt_ind' s0 end
+      | None => fun x H => match H in _ = y return match y with Some x' => P x' | None => True end with eq_refl => I end
+      end in
+  match s with
+  | SReturn res => HReturn res
+  | SAssign tok lhs nrhs rhs => HAssign tok lhs nrhs rhs
+  | SIncDec x inc => HIncDec x inc
+  | SIf init c t e => HIf init c t e (opt init) (all t) (opt e)
+  | SFor init c post body => HFor init c post body (opt init) (opt post) (all body)
+  | SBreak => HBreak
+  | SExpr e => HExpr e
+  | SBlock l => HBlock l (all l)
+  | SBad => HBad
+  end.
+End StmtInd.
